@@ -37,7 +37,7 @@ def build_sandbox(rng, sb, nperm):
     nodes += [Node(D + "g0", "f", size=0), Node(D + "g1", "f", size=3), Node(D + "e", "d"), Node(D + "lg1", "l", target="g1"),
               Node(D + "le", "l", target="e"), Node(D + "ldang", "l", target="missing"), Node(D + "ltypes", "l", target="../../types/d1")]
     # permissions
-    perms = set([0, 0o7777, 0o644, 0o755, 0o4755, 0o2755, 0o1777, 0o600, 0o400, 0o111, 0o222, 0o444, 0o4000, 0o2000, 0o1000, 0o777])
+    perms = set([0, 0o7777, 0o660, 0o775, 0o002, 0o666, 0o664, 0o750, 0o640, 0o644, 0o755, 0o4755, 0o2755, 0o1777, 0o600, 0o400, 0o111, 0o222, 0o444, 0o4000, 0o2000, 0o1000, 0o777])
     while len(perms) < nperm:
         perms.add(rng.randrange(0o10000))
     perms = sorted(perms)
@@ -143,6 +143,13 @@ def make_tests(rng, sb, info, ents_by_mode, quick):
         tests.append(Test(["-perm", "-" + spell], lambda e, m, M=M: stat.S_IMODE(e.rec.st_mode) & M == M, "perm-symbolic"))
         tests.append(Test(["-perm", "/" + spell], lambda e, m, M=M: stat.S_IMODE(e.rec.st_mode) & M != 0, "perm-symbolic"))
         tests.append(Test(["-perm", spell], lambda e, m, M=M: stat.S_IMODE(e.rec.st_mode) == M, "perm-symbolic"))
+    # clauses that depend on earlier clauses (copy, removal, re-assignment): chmod(1) semantics, octal equivalent known
+    for spell, M in (("u=rw,g=u", 0o660), ("a=rwx,o-w", 0o775), ("u=rwx,u=r", 0o400), ("a=w,ug-w", 0o002), ("u=rwx,g=u,o=g", 0o777), ("a=rx,u+w", 0o755),
+                     ("u=rwx,go=u-w", 0o755), ("a+rwx,a-x", 0o666), ("u=rw,go=", 0o600), ("ug=rw,o=u-w", 0o664), ("a=r,u+w,g+w", 0o664),
+                     ("u=rwxs,g=rx,o=rx,u-s", 0o755), ("a=rwx,g-w,o-rwx", 0o750), ("u=rw,g=u,g-w", 0o640)):
+        tests.append(Test(["-perm", spell], lambda e, m, M=M: stat.S_IMODE(e.rec.st_mode) == M, "perm-symbolic-dependent"))
+        tests.append(Test(["-perm", "-" + spell], lambda e, m, M=M: stat.S_IMODE(e.rec.st_mode) & M == M, "perm-symbolic-dependent"))
+        tests.append(Test(["-perm", "/" + spell], lambda e, m, M=M: M == 0 or stat.S_IMODE(e.rec.st_mode) & M != 0, "perm-symbolic-dependent"))
     for n in range(0, 8):
         for sg in ("", "+", "-"):
             tests.append(Test(["-links", sg + str(n)], lambda e, m, sp=sg + str(n): cmpn(sp, e.rec.st_nlink), "links"))
@@ -343,7 +350,7 @@ def run(ctx):
     self_check()
     nw = common.NCPU
     ctx.pmap(worker, [(k, nw, ctx.seed, ctx.quick) for k in range(nw)])
-    for key in ("family:type", "family:xtype", "family:perm-octal", "family:perm-symbolic", "family:links", "family:inum", "family:uid",
+    for key in ("family:type", "family:xtype", "family:perm-octal", "family:perm-symbolic", "family:perm-symbolic-dependent", "family:links", "family:inum", "family:uid",
                 "family:user-name", "family:group-name", "family:empty", "family:samefile", "family:lname", "binary_runs",
                 "evaluations_where_P_and_L_differ", "entries_of_type:l", "entries_of_type:p", "entries_of_type:s", "entries_of_type:c",
                 "entries_of_type:b"):
